@@ -136,7 +136,7 @@ pub fn gen_setup(rng: &mut Rng, n: usize, out: &mut Vec<String>) {
             }
         }
     }
-    for u in [format!("ldapi://{}", sock_enc), format!("ldapi://{}/", sock_enc), format!("ldapi://{}:33", sock_enc), "ldapi://".to_string(), "ldapi:///".to_string(), "ldapi://%2fnonexistent%2fsock".to_string(),
+    for u in [format!("ldapi://{}", sock_enc), format!("ldapi://{}/", sock_enc), format!("ldapi://{}:33", sock_enc), "ldapi://".to_string(), "ldapi:///".to_string(), "ldapi://%2fnonexistent%2fsock".to_string(), "ldapi://%2ftmp%2fl3h%3A389.sock".to_string(), "ldapi://%2Ftmp%2Fa%3ab".to_string(),
               "ldap://".to_string(), "ldap:///".to_string(), "ldaps:///".to_string(), "ldap:".to_string(), "not a url".to_string(), "ldap://[::1".to_string(), "ldap://localhost:99999".to_string(), "://x".to_string()] { urls.push(u); }
     let total = urls.len() * 8;
     let stride = (total / n.max(1)).max(1);
@@ -147,6 +147,11 @@ pub fn gen_setup(rng: &mut Rng, n: usize, out: &mut Vec<String>) {
         let (sch, host, port) = match url::Url::parse(u) { Ok(p) => (p.scheme().to_string(), p.host_str().map(|h| hex(h.as_bytes())).unwrap_or("none".into()), p.port().map(|x| x.to_string()).unwrap_or("none".into())), Err(_) => ("-".into(), "none".into(), "none".into()) };
         out.push(format!("setup {} {} {} {} {} {} {}", hex(u.as_bytes()), sch, host, port, starttls, std, tmo));
         k += stride;
+    }
+    // always: socket paths whose percent-encoding hides a colon (the colon test is on the host as written in the URL), an ldapi URL with a real port
+    for u in ["ldapi://%2ftmp%2fl3h%3A389.sock", "ldapi://%2Ftmp%2Fa%3ab", "ldapi://%2ftmp%2fx:389"] {
+        let (sch, host, port) = match url::Url::parse(u) { Ok(p) => (p.scheme().to_string(), p.host_str().map(|h| hex(h.as_bytes())).unwrap_or("none".into()), p.port().map(|x| x.to_string()).unwrap_or("none".into())), Err(_) => ("-".into(), "none".into(), "none".into()) };
+        out.push(format!("setup {} {} {} {} 0 none none", hex(u.as_bytes()), sch, host, port));
     }
     // oracle-only: unreachable endpoint; a connection timeout bounds StartTLS against a silent server
     out.push(format!("setupx {} unreachable", hex(b"ldap://127.0.0.1:38999")));
